@@ -5,8 +5,12 @@ import RsslVerif.Model.Names
 
 * `typer/src/typer/pipelines.rs` `parse_pipeline` / `add_stage`: how a `Pipeline` block becomes an
   `ir::PipelineDefinition` (stage list in *property* order, entry function found by its source name among **all**
-  functions of the module, thread group size = the last `numthreads` attribute of that function, default
-  bind group, graphics state only for non-compute pipelines), and the errors that refuse the file;
+  functions the registry holds *when the block is met*, thread group size = the last `numthreads` attribute of that
+  function, default bind group, graphics state only for non-compute pipelines), and the errors that refuse the file;
+* `typer/src/typer.rs` `type_check_internal` + `typer/src/typer/functions.rs` `parse_function`: the root definitions
+  are processed strictly in source order and the first error refuses the file; a function is registered when its
+  first declaration / definition is met, its attributes are parsed **only at the definition** (never on a forward
+  declaration) and it has an implementation only after its definition (`parseFile`, `regAt`);
 * `ir/src/name_generator.rs` `NameMap::build` (the C15 model `Model.Names.build`) as used by both exporters for
   the names they print *and* report: HLSL reports `context.get_function_name(stage.entry_point)` and
   `context.get_global_name(id)` — lookups in the same map the definitions are printed from — while a cbuffer
@@ -19,13 +23,21 @@ Core Lean only.  Errors of the Rust code are explicit.
 namespace RsslVerif.Model.MetaFront
 open RsslVerif.Gen.CompileTables RsslVerif.Model.Meta
 
-/-- a function definition as `add_stage` sees it -/
+/-- an entry of the function registry as `add_stage` sees it.  The registry *grows while the file is read*
+    (`parse_function`: `register_function` when a declaration / definition of a new signature is met,
+    `set_implementation` at the end of `parse_function_body`): a table `funcs : List FnSrc` lists every function the
+    file will ever register (position = function id, an opaque key) together with the intrinsics, and `registered` /
+    `hasBody` say what the registry holds *at a given moment* (`regAt`). -/
 structure FnSrc where
   name : String
-  /-- evaluated `NumThreads` attributes in source order -/
+  /-- evaluated `NumThreads` attributes of the *definition*, in source order (the attributes written on a forward
+      declaration are never looked at: `parse_function` calls `parse_function_attributes` under `if is_definition`) -/
   attrs : List (Nat × Nat × Nat)
+  /-- `get_function_implementation(id)` is `Some` -/
   hasBody : Bool
   isTemplate : Bool
+  /-- the function is in the registry (`function_registry.iter()` yields it) -/
+  registered : Bool
   deriving DecidableEq, Repr, Inhabited
 
 /-- a `Pipeline` block: stage properties in source order, the other properties summarised -/
@@ -82,10 +94,10 @@ def parseFunctionAttributes : List (Nat × Nat × Nat) → List (Nat × Nat × N
   | acc, [] => .ok acc
   | acc, a :: r => if !acc.isEmpty then .error .FunctionAttributeDuplicate else parseFunctionAttributes (acc ++ [a]) r
 
-/-- indices of the functions called `n` (the `for id in function_registry.iter()` loop of `add_stage`) -/
+/-- indices of the registered functions called `n` (the `for id in function_registry.iter()` loop of `add_stage`) -/
 def fnIndices : List FnSrc → String → Nat → List Nat
   | [], _, _ => []
-  | f :: r, n, i => if f.name == n then i :: fnIndices r n (i + 1) else fnIndices r n (i + 1)
+  | f :: r, n, i => if f.registered && f.name == n then i :: fnIndices r n (i + 1) else fnIndices r n (i + 1)
 
 /-- `add_stage` -/
 def addStage (funcs : List FnSrc) (st : Stage) (n : String) : Except FrontErr StageRec :=
@@ -130,7 +142,7 @@ def parsePipeline (funcs : List FnSrc) (earlier : List String) (p : PipeSrc) : E
       else if isCompute && p.graphicsProps then .error .PipelinePropertyRequiresGraphicsPipeline
       else .ok { name := p.name, dflt := p.dflt.getD 0, stages := s :: rest, graphics := !isCompute }
 
-/-- all `Pipeline` blocks of a file in source order -/
+/-- a run of consecutive `Pipeline` blocks (no function declared or defined in between: one registry `funcs`) -/
 def parsePipelines (funcs : List FnSrc) : List String → List PipeSrc → Except FrontErr (List PipeDef)
   | _, [] => .ok []
   | earlier, p :: r =>
@@ -141,39 +153,59 @@ def parsePipelines (funcs : List FnSrc) : List String → List PipeSrc → Excep
       | .error e => .error e
       | .ok rest => .ok (d :: rest)
 
-/-- what the front end meets in file order, as far as the model follows it: a function declaration / definition
-    (its attributes are parsed each time) or a `Pipeline` block -/
+/-- the registry at some moment of the file: of the table `funcs`, the functions whose declaration or definition has
+    been met (`declared`) are registered, those whose definition has been completed (`defined`) have an implementation;
+    what the table itself says (`registered` of an intrinsic) stays -/
+def regAt (funcs : List FnSrc) (declared defined : List Nat) : List FnSrc :=
+  funcs.mapIdx fun i f =>
+    { f with registered := f.registered || declared.contains i || defined.contains i,
+             hasBody := f.hasBody || defined.contains i }
+
+/-- what the front end meets in file order (`type_check_internal`: `for def in &ast.root_definitions`), as far as the
+    model follows it.  Functions are named by their position in the table `funcs`.
+    * `decl i`: a forward declaration — `parse_function` registers the signature; **its attributes are not parsed**
+      (so a declaration may carry any number of `numthreads` attributes);
+    * `defn i`: a definition — the signature is registered (or found), then `parse_function_body` parses the attributes
+      (a second attribute of a kind: `FunctionAttributeDuplicate`), the body, and stores the implementation;
+    * `pipe p`: a `Pipeline` block — `parse_pipeline` against the registry *as it is now*. -/
 inductive Item where
-  | fn (f : FnSrc)
+  | decl (i : Nat)
+  | defn (i : Nat)
   | pipe (p : PipeSrc)
   deriving DecidableEq, Repr, Inhabited
 
-/-- the root definitions of a file in source order; the first error refuses the file.  `funcs` = the function
-    registry `add_stage` searches. -/
-def parseFile (funcs : List FnSrc) : List String → List Item → Except FrontErr (List PipeDef)
-  | _, [] => .ok []
-  | earlier, .fn f :: r =>
-    match parseFunctionAttributes [] f.attrs with
-    | .error e => .error e
-    | .ok _ => parseFile funcs earlier r
-  | earlier, .pipe p :: r =>
-    match parsePipeline funcs earlier p with
+/-- the root definitions of a file in source order; the first error refuses the file.  `funcs` = the table of all
+    functions, `declared` / `defined` = what the items before have registered / implemented, `earlier` = the names of
+    the pipelines before. -/
+def parseFile (funcs : List FnSrc) : List Nat → List Nat → List String → List Item → Except FrontErr (List PipeDef)
+  | _, _, _, [] => .ok []
+  | dc, df, earlier, .decl i :: r => parseFile funcs (i :: dc) df earlier r
+  | dc, df, earlier, .defn i :: r =>
+    match funcs[i]? with
+    | none => parseFile funcs dc df earlier r
+    | some f =>
+      match parseFunctionAttributes [] f.attrs with
+      | .error e => .error e
+      | .ok _ => parseFile funcs (i :: dc) (i :: df) earlier r
+  | dc, df, earlier, .pipe p :: r =>
+    match parsePipeline (regAt funcs dc df) earlier p with
     | .error e => .error e
     | .ok d =>
-      match parseFile funcs (earlier ++ [p.name]) r with
+      match parseFile funcs dc df (earlier ++ [p.name]) r with
       | .error e => .error e
       | .ok rest => .ok (d :: rest)
 
-/-- the `Pipeline` blocks / the functions among the items -/
+/-- the `Pipeline` blocks among the items -/
 def itemPipes : List Item → List PipeSrc
   | [] => []
-  | .fn _ :: r => itemPipes r
   | .pipe p :: r => p :: itemPipes r
+  | _ :: r => itemPipes r
 
-def itemFns : List Item → List FnSrc
+/-- the functions the items define -/
+def itemDefs : List Item → List Nat
   | [] => []
-  | .fn f :: r => f :: itemFns r
-  | .pipe _ :: r => itemFns r
+  | .defn i :: r => i :: itemDefs r
+  | _ :: r => itemDefs r
 
 /-- the stage list `build_pipeline` walks -/
 def stageDefs (p : PipeDef) : List StageDef := p.stages.map fun s => { stage := s.stage, entry := s.entry }
